@@ -646,7 +646,7 @@ impl Suite for ListenSuite {
                 tags: vec!["faulty-peers-long-nonascii".into()],
             });
         }
-        let n = if ctx.thorough { 160 } else { 28 };
+        let n = if ctx.thorough { 320 } else { 28 };
         for i in 0..n {
             let transport = ["unix", "tcp", "abstract"][i % 3];
             let nclients = match rng.below(10) {
